@@ -879,8 +879,22 @@ func (g *gen) writeBuiltinNumType(b *buffer, recv *a.Expr, method t.ID, args []*
 			b.writes(") == 0u ? 0u : ")
 		}
 		b.writes("((")
+		// A constant receiver is written as a plain literal like "255u", whose C
+		// type can be narrower than recv's type: cast it, so that the shift below
+		// is within the width of the left operand.
+		recvCast := recv.ConstValue() != nil
+		if recvCast {
+			b.writes("(")
+			if err := g.writeCTypeName(b, recv.MType(), "", ""); err != nil {
+				return err
+			}
+			b.writes(")(")
+		}
 		if err := g.writeExpr(b, recv, false, depth); err != nil {
 			return err
+		}
+		if recvCast {
+			b.writes(")")
 		}
 		b.writes(") >> (")
 		if sz, err := g.sizeof(recv.MType()); err != nil {
